@@ -61,6 +61,15 @@ func ZZ_C16_disp(a []int) {
 			sh.nUser = 1
 			sh.mask = 1
 		}
+		if a[0] == 3 || a[0] == 4 {
+			// short forms: PUBACK family with the packet identifier only or
+			// with a reason code and no property length, DISCONNECT with the
+			// reason code only
+			sh.form = a[0] - 2
+			if !(typ >= 4 && typ <= 7) && typ != 14 && typ != 15 {
+				return
+			}
+		}
 		if typ == 0 {
 			body = zzBytes("u", 3)
 		} else {
